@@ -40,6 +40,14 @@ def edge_line(eid, a, oa, b, ob, seglen, rng):
         b2, e2 = 0, n
     else:
         b2, e2 = lb - n, lb
+    kind = rng.random()
+    if kind < 0.15 and la > 3:
+        # not a dovetail: the second segment lies within the first one (a group steps over any edge that joins
+        # the two oriented segments, whatever its kind)
+        b1, e1, b2, e2 = 1, min(la - 1, 1 + n), 0, lb
+    elif kind < 0.3 and la > 4 and lb > 4:
+        # an internal alignment
+        b1, e1, b2, e2 = 1, 1 + min(n, la - 3), 2, 2 + min(n, lb - 4)
     return "\t".join(["E", eid, a + oa, b + ob, G.pos_str(b1, la), G.pos_str(e1, la), G.pos_str(b2, lb),
                       G.pos_str(e2, lb), "*"])
 
